@@ -222,6 +222,9 @@ func (b *CredentialBuilder) ConstructCredential(msg *IssueSignatureMessage, attr
 
 // Creates a proofU using a provided nonce
 func (b *CredentialBuilder) proveCommitment(nonce1 *big.Int) (Proof, error) {
+	if nonce1 == nil || b.context == nil {
+		return nil, errors.New("missing context or nonce")
+	}
 	sCommit, err := common.RandomBigInt(b.pk.Params.LsCommit)
 	if err != nil {
 		return nil, err
